@@ -142,6 +142,37 @@ fn entry_points<'a>(
     v
 }
 
+/// Supply the settings through the performance builder's own setters instead of a `Difficulty`.
+pub fn apply_setters<'a>(mut p: Performance<'a>, spec: &SetSpec, mode: GameMode) -> Performance<'a> {
+    p = p.mods(spec.mods.to_gamemods(mode));
+    if let Some(c) = spec.clock {
+        p = p.clock_rate(c);
+    }
+    if let Some((v, f)) = spec.ar {
+        p = p.ar(v, f);
+    }
+    if let Some((v, f)) = spec.cs {
+        p = p.cs(v, f);
+    }
+    if let Some((v, f)) = spec.od {
+        p = p.od(v, f);
+    }
+    // hp last on purpose: a later od() would mask a mix-up between the two
+    if let Some((v, f)) = spec.hp {
+        p = p.hp(v, f);
+    }
+    if let Some(n) = spec.passed {
+        p = p.passed_objects(n);
+    }
+    if let Some(h) = spec.hro {
+        p = p.hardrock_offsets(h);
+    }
+    if let Some(l) = spec.lazer {
+        p = p.lazer(l);
+    }
+    p
+}
+
 pub fn gen_inputs(ctx: &Ctx, rng: &mut Rng, tag: &str) -> Option<(gen::MapCase, Beatmap, GameMode, SetSpec, ScoreSpec)> {
     let _ = tag;
     let max_objects = if ctx.thorough() { 120 } else { 50 };
@@ -281,6 +312,57 @@ pub fn case(ctx: &mut Ctx, idx: u64) {
                 ctx.violation(
                     &format!("C04/{mname}/entry/{name}/{}", p.sig()),
                     &format!("entry point {name} panicked: {} at {} | settings=[{}] score={}", p.msg, p.loc, spec.describe(), sc.describe()),
+                    Some(&mc.text),
+                );
+            }
+        }
+    }
+    // ---- the same settings supplied through the builder's own setters (map path vs attribute path vs one-shot)
+    {
+        // settings that the enum-level setters document as irrelevant for the mode are not part of `d` here
+        let mut sspec = spec.clone();
+        if matches!(mode, GameMode::Taiko | GameMode::Mania) {
+            sspec.ar = None;
+            sspec.cs = None;
+        }
+        if mode != GameMode::Catch {
+            sspec.hro = None;
+        }
+        if matches!(mode, GameMode::Taiko | GameMode::Catch) {
+            sspec.lazer = None;
+        }
+        let ds = sspec.to_difficulty(mode);
+        let one_shot = guard(|| api::calc(&ds, &conv));
+        let from_map = guard(|| api::perf_calc(sc.apply(apply_setters(Performance::new(&conv), &sspec, mode))));
+        let a2 = one_shot.clone();
+        let from_attrs = guard(|| a2.map(|a| api::perf_calc(sc.apply(apply_setters(Performance::new(a), &sspec, mode)))));
+        ctx.eval();
+        ctx.count("setter-path-comparisons");
+        if let (Ok(a), Ok(m), Ok(Ok(t))) = (one_shot, from_map, from_attrs) {
+            let emb = m.difficulty_attributes();
+            if dump(&emb) != dump(&a) {
+                let f = diff_fields(&emb, &a);
+                ctx.violation(
+                    &format!("C04/{mname}/setters/embedded-difficulty/{}", sig_fields(&f)),
+                    &format!(
+                        "settings supplied through Performance setters: embedded difficulty attributes differ from Difficulty::calculate with the same settings; fields={f:?} settings=[{}]\n embedded: {}\n one-shot: {}",
+                        sspec.describe(),
+                        dump(&emb),
+                        dump(&a)
+                    ),
+                    Some(&mc.text),
+                );
+            } else if dump(&m) != dump(&t) {
+                let f = perf_diff_fields(&m, &t);
+                ctx.violation(
+                    &format!("C04/{mname}/setters/map-vs-attrs/{}", sig_fields(&f)),
+                    &format!(
+                        "settings supplied through Performance setters: result from the map differs from the result from its attributes; fields={f:?} settings=[{}] score={}\n map  : {}\n attrs: {}",
+                        sspec.describe(),
+                        sc.describe(),
+                        dump(&m),
+                        dump(&t)
+                    ),
                     Some(&mc.text),
                 );
             }
